@@ -122,6 +122,9 @@ structure Plug where
   /-- does a stored value carry THIS type as its `realtype`?  (`false` for leafref: `lyplg_type_store_leafref` stores the value with the
       plug-in of the target's type, so `value.realtype` is the target's type, which is not an element of the union's `types` array) -/
   ownRealtype : Bool := true
+  /-- does `store` answer `LY_EINCOMPLETE`, i.e. must the value be resolved against the data tree by the `validate` callback?
+      (leafref with `require-instance true`: an instance of the target with the same canonical value must exist) -/
+  reqInst : Bool := false
 
 /-- the plug-in of a modelled member type -/
 def MTy.plug (m : MTy) : Plug :=
@@ -130,6 +133,14 @@ def MTy.plug (m : MTy) : Plug :=
 /-- `plugins_types/leafref.c` with `require-instance false`: store / compare / sort / print / dup are the callbacks of the target's type
     (`type_lr->realtype->plugin->…`), the stored value has the TARGET's type as `realtype` -/
 def lrefPlug (target : Plug) : Plug := { target with ownRealtype := false }
+
+/-- leafref with `require-instance true` (the default): `store` is the target's and answers `LY_EINCOMPLETE`; `lyplg_type_validate_leafref`
+    → `lyplg_type_resolve_leafref` looks for a target instance whose canonical value is the value's (`path[.='canonical']`) -/
+def lrefrPlug (target : Plug) : Plug := { target with ownRealtype := false, reqInst := true }
+
+/-- `lyplg_type_resolve_leafref` over the canonical values of the existing target instances -/
+def Plug.resolves (p : Plug) (targets : List Bytes) (v : Value) : Bool :=
+  !p.reqInst || targets.contains (p.canon v)
 
 /-- module part / name part of a canonical identityref value `module:name` -/
 def identMod (s : Bytes) : Bytes := s.takeWhile (· != 58)
@@ -198,6 +209,30 @@ def findType : List Plug → Nat → Nat → Bytes → Option UVal
 /-- `lyplg_type_store_union`, text formats -/
 def storeU (ms : List Plug) (hints : Nat) (s : Bytes) : Except MErr UVal :=
   match findType ms 0 hints s with
+  | some u => .ok u
+  | none => .error .NoMember
+
+/-- `lyplg_type_validate_union` (text formats) = `union_find_type(…, resolve = 1, …)`: the members are tried again, in order, on the ORIGINAL
+    text with the original hints; a member is taken when its `store` succeeds and — if it answered `LY_EINCOMPLETE` — its `validate`
+    callback succeeds too.  `targets` are the canonical values of the instances the leafref members may point to.  The member may be a
+    DIFFERENT one than at store time (`storeU` takes the first that stores, resolvable or not). -/
+def findTypeV (targets : List Bytes) : List Plug → Nat → Nat → Bytes → Option UVal
+  | [], _, _, _ => none
+  | m :: r, i, hints, s =>
+    match m.store hints s with
+    | .ok v => if m.resolves targets v then some ⟨i, v⟩ else findTypeV targets r (i + 1) hints s
+    | .error _ => findTypeV targets r (i + 1) hints s
+
+/-- the same with the target instances given per member (each leafref member has a target of its own) -/
+def findTypeVM (targetsOf : Plug → List Bytes) : List Plug → Nat → Nat → Bytes → Option UVal
+  | [], _, _, _ => none
+  | m :: r, i, hints, s =>
+    match m.store hints s with
+    | .ok v => if m.resolves (targetsOf m) v then some ⟨i, v⟩ else findTypeVM targetsOf r (i + 1) hints s
+    | .error _ => findTypeVM targetsOf r (i + 1) hints s
+
+def validateU (ms : List Plug) (targets : List Bytes) (hints : Nat) (s : Bytes) : Except MErr UVal :=
+  match findTypeV targets ms 0 hints s with
   | some u => .ok u
   | none => .error .NoMember
 
